@@ -663,7 +663,19 @@ def batching(w, repo):
         os.chmod(rec, 0o755)
         log = os.path.join(d, "rec.log")
         open(log, "w").close()
-        inp = b"".join(bytes([97 + i]) * lens[i] + (b"\n" if hard[i] else b" ") for i in range(nargs))
+        def text(i):
+            """an argument of lens[i] bytes and (if the witness says so) fewer characters: multi-byte letters where needed"""
+            L, C = lens[i], g("chars%d" % i, lens[i])
+            C = max(1, min(C, L))
+            if C == L or L > 4 * C:
+                return (chr(97 + i) * L).encode()
+            out, left = [], L
+            for k in range(C):
+                w_ = min(4, left - (C - k - 1))
+                out.append({1: chr(97 + i), 2: "\u00e9", 3: "\u20ac", 4: "\U0001f600"}[w_]); left -= w_
+            return "".join(out).encode()
+        texts = [text(i) for i in range(nargs)]
+        inp = b"".join(texts[i] + (b"\n" if hard[i] else b" ") for i in range(nargs))
         codes = ",".join({0: "0", 1: "1", 2: "255"}[o] for o in outcomes)
         args = []
         if cfg["n"]: args += ["-n", str(n_lim)]
@@ -674,7 +686,7 @@ def batching(w, repo):
         env = dict(os.environ, REC_LOG=log, REC_CODES=codes, PATH=d + ":" + os.environ.get("PATH", ""))
         rc, out, err = run([xargs_bin(repo)] + args + [name], cwd=d, inp=inp, env=env)
         calls = [l.split(":", 1)[1].split() for l in open(log).read().splitlines()]
-        want_calls = [[chr(97 + i) * lens[i] for i in b] for b in want_batches]
+        want_calls = [[texts[i].decode() for i in b] for b in want_batches]
         ok = calls == want_calls and rc == want_rc
         detail = "xargs %s %s <%r: invocations %r rc=%d; reference %r rc=%d" % (" ".join(args), name, inp, calls, rc, want_calls, want_rc)
         if cfg["n"] and cfg["L"]:
@@ -1030,7 +1042,7 @@ def files0_cli(w, repo):
     sys.path.insert(0, os.path.join(os.path.dirname(os.path.dirname(os.path.abspath(__file__))), "mirsym"))
     if not build(repo):
         return None, "build failed"
-    files = {"F_ab": b"a\0./b/\0", "F_dash_nl": b"-n\0x\ny\0", "F_hole": b"a\0\0b\0", "F_empty": b"", "F_nofinal": b"a\0b", "F_onlynul": b"\0"}
+    files = {"F_ab": b"a\0./b/\0", "F_dash_nl": b"-n\0x\ny\0", "F_hole": b"a\0\0b\0", "F_empty": b"", "F_nofinal": b"a\0b", "F_onlynul": b"\0", "F_hole3": b"a\0\0b\0c\0"}
     toks = w.get("tokens") or ["-files0-from", "F_hole"]
     with Sandbox() as d:
         for n, c in files.items():
